@@ -381,7 +381,7 @@ def cases_c07(rng, thorough):
             space = rng.sample(space, 400 if thorough else 60)
         for gf in space:
             cases.append(mux_case([op], G.key_stream(rng.choice([0, 2]), ts_items(gf)),
-                                  timescale=rng.choice([None, 'datetime', 'datetime-days', 'datetime-ms'])))
+                                  timescale=rng.choice([None, 'datetime', 'datetime-days', 'datetime-ms', 'datetime-dst'])))
     for _ in range(400 if thorough else 100):    # longer, interleaved keys, to_list
         a, i, cl, inc = rng.choice(cfgs)
         inner = rng.choice([[], [G.op_simple('to_list')], [{'op': 'count', 'reduce': True}]])
@@ -394,7 +394,7 @@ def cases_c07(rng, thorough):
                 lts.append((idx, ts_items(gf)))
         pipe = [op] if rng.random() < 0.6 else [G.op_group_by('fstmodc', 2, [op])]
         cases.append(mux_case(pipe, G.schedule(rng, lts),
-                              timescale=rng.choice([None, 'datetime', 'datetime-days', 'datetime-ms'])))
+                              timescale=rng.choice([None, 'datetime', 'datetime-days', 'datetime-ms', 'datetime-dst'])))
     cases += shared_inner_cases(
         rng, 24 if thorough else 8,
         lambda r, inn: G.op_time_split(r.choice([-1, 2, 3]), r.choice([-1, 1, 2]), True, r.random() < 0.5, inn),
@@ -751,7 +751,9 @@ def cases_c11(rng, thorough):
                                        for _ in range(rng.randint(0, 8))])) for idx in rng.sample([0, 2], rng.choice([1, 2]))]
             else:
                 lts = rand_lifetimes(rng, rng.choice([1, 2]), 8, vals=range(5))
-            cases.append(mux_case(pipe, G.schedule(rng, lts)))
+            cases.append(mux_case(pipe, G.schedule(rng, lts),
+                                  **({'timescale': rng.choice([None, 'datetime', 'datetime-dst'])}
+                                     if pipe[0]['op'] == 'time_split' else {})))
             if pipe[0]['op'] != 'time_split':
                 cases.append(src_case(pipe, G.ints([rng.randint(0, 4)
                                                     for _ in range(rng.randint(0, 8))])))
@@ -1104,6 +1106,41 @@ def judge_plain(V, prop, traces, stats):
                          'src': tr['groups'][0]['items'], 'plain': tr['groups'][0]['plain'],
                          'plainend': tr['groups'][0]['plainend']}, v[2],
                         detail='plain code path vs PlainSem')
+
+
+def extra_c13(V, rng, thorough, stats):
+    """'as if the item were absent' for the aggregates whose user function (the key mapper) runs
+    inside the fold: a failing item must leave no trace in the values that follow."""
+    aggs = [lambda f, r: G.op_agg('sum', r), lambda f, r: G.op_agg('mean', r), lambda f, r: G.op_agg('max', r),
+            lambda f, r: G.op_agg('min', r)]
+    traces, meta = [], []
+    for _ in range(80 if thorough else 24):
+        code = rng.choice([1, 2, 3])
+        red = rng.random() < 0.4
+        kind = rng.choice(['sum', 'mean', 'max', 'min', 'variance', 'stddev', 'fvariance'])
+        if kind in ('variance', 'stddev', 'fvariance'):
+            mk = lambda f: {'op': kind, 'f': f, 'reduce': red}
+        else:
+            mk = lambda f: {'op': kind, 'f': f, 'reduce': red}
+        pipe = [mk(fn('failIf', code)), G.op_simple('ignore')]
+        clean = [mk(fn('id'))]
+        items = G.ints([rng.choice([0, 1, 2, 3, 4, 5]) for _ in range(rng.randint(2, 9))])
+        if kind == 'mean' and red and all(v == I(code) for v in items):
+            continue
+        tr = MC.absent_pair(pipe, clean, items, lambda v: v == I(code))
+        traces.append(tr)
+        meta.append((pipe, clean, items, code))
+    verdicts, st = C.validate_traces('PlainTrace', traces)
+    for k in ('states', 'transitions', 'tlc_runs'):
+        stats[k] = stats.get(k, 0) + st[k]
+    stats['traces'] = stats.get('traces', 0) + len(traces)
+    for tr, v, (pipe, clean, items, code) in zip(traces, verdicts, meta):
+        if v[0] == 'REJECT':
+            V.violation({'family': 'C13', 'ops': ' '.join(MC.op_names(pipe)), 'pipe': json.dumps(pipe, sort_keys=True),
+                         'clean_pipe': json.dumps(clean, sort_keys=True), 'mode': 'absent', 'src': items,
+                         'fail_code': code, 'with': tr['groups'][0]['mux'], 'without': tr['groups'][0]['plain']},
+                        'failing-item-not-absent', detail='the values after a failing item differ from those of the '
+                        'sequence without it')
 
 
 def extra_c10(V, rng, thorough, stats):
@@ -1472,7 +1509,7 @@ PROPS = {
     'C11': dict(cases=cases_c11, relevant=relevant_c11, nontrivial=nontrivial_c11, lsc=['seq', 'int'],
                 rule='some output of the pipeline is emitted in the step of a source item '
                      '(not only at completion)'),
-    'C13': dict(cases=cases_c13, relevant=relevant_c13, nontrivial=nontrivial_c13, lsc=['int'],
+    'C13': dict(cases=cases_c13, relevant=relevant_c13, nontrivial=nontrivial_c13, lsc=['int'], extra=extra_c13,
                 rule='at least one item-level error event occurred'),
 }
 
